@@ -59,6 +59,27 @@ def sign_patterns(run, tier, rng):
                             if got.tobytes() != want.tobytes():
                                 run.violation({"kind": "reloaded_transform_differs", "target": fn, "signs": list(signs), "scale": scale,
                                                "dtype": str(np.dtype(dt)), "norm_var": norm_var})
+        # coefficients that never vary (a dead channel, a floored log-energy): every count, raw target
+        for const in (-3.3, float(np.log(1e-10)), 0.1, 1.0 / 3.0, 0.0):
+            for n in range(1, 41):
+                data = np.stack([np.full(n, const), nprng.randn(n)], axis=1)
+                s = post.Standardize()
+                s.accumulate(data)
+                probe = nprng.randn(3, 2)
+                k += 1
+                path = os.path.join(tmp, "%d_const.bin" % k)
+                run.evaluations += 1
+                try:
+                    with warnings.catch_warnings():
+                        warnings.simplefilter("ignore")
+                        want = s.apply(probe)
+                        s.save(path)
+                        got = post.Standardize(path, force_as="file").apply(probe)
+                except Exception as e:
+                    run.violation({"kind": "save_reload_raised", "target": "raw", "constant_coefficient": const, "n_vectors": n, "error": repr(e)})
+                    continue
+                if got.tobytes() != want.tobytes():
+                    run.violation({"kind": "reloaded_transform_differs", "target": "raw", "constant_coefficient": const, "n_vectors": n})
         # no statistics: ValueError, for every kind
         for fn in ("e.npy", "e.npz", "e.bin"):
             try:
